@@ -144,6 +144,12 @@ class BehavioralRTLIRToVVisitorL2( BehavioralRTLIRToVVisitorL1 ):
     loop_var = s.visit( node.var )
     start    = s.visit( node.start )
     end      = s.visit( node.end )
+    # The bounds are operands of the comparisons below: an operation
+    # ( range( N & M ) ) keeps its own parentheses
+    if isinstance( node.start, ( bir.BinOp, bir.IfExp, bir.Compare ) ):
+      start = f"( {start} )"
+    if isinstance( node.end, ( bir.BinOp, bir.IfExp, bir.Compare ) ):
+      end = f"( {end} )"
 
     begin    = ' begin' if s._needs_begin_end( node.body ) else ''
 
